@@ -9,7 +9,7 @@ EXACT = {'std::io::Read::read_exact', 'byteorder::ReadBytesExt::read_u8', 'byteo
          'byteorder::ReadBytesExt::read_i16', 'byteorder::ReadBytesExt::read_u32', 'byteorder::ReadBytesExt::read_i32',
          'byteorder::ReadBytesExt::read_u64', 'byteorder::ReadBytesExt::read_i64', 'byteorder::ReadBytesExt::read_i8'}
 TO_END = {'std::io::Read::read_to_end'}
-WRAP = {'std::io::Read::take', 'flate2::read::ZlibDecoder::new', 'std::io::Cursor::new', 'std::io::BufReader::new',
+WRAP = {'std::io::Read::take', 'flate2::read::ZlibDecoder::new', 'std::io::Cursor::new', 'std::io::BufReader::new', 'std::io::BufReader::with_capacity',
         'std::io::Read::by_ref'}
 FORBIDDEN_PREFIX = ('std::io::Read::read', 'std::io::Read::read_buf', 'std::io::Read::read_vectored', 'std::io::Read::bytes',
                     'std::io::Read::read_to_string', 'std::io::Read::chain', 'std::io::Seek::', 'std::io::BufRead::',
@@ -22,8 +22,12 @@ def io_calls(fx, bodies):
     for b in bodies:
         for c in q.calls(b):
             n = c.callee
-            if n.startswith(('std::io::Read::', 'std::io::Seek::', 'std::io::BufRead::', 'byteorder::', 'flate2::', 'std::io::Error::',
-                             'std::io::Cursor::', 'std::io::BufReader::', 'std::io::Take::', 'std::io::Write::')):
+            # everything in std::io counts (free functions such as io::copy included: seed C13-g discarded bytes through
+            # io::copy, which reports a short count instead of failing), except printing and the construction of error values
+            if n.startswith(('std::io::', 'byteorder::', 'flate2::')) and not n.startswith(('std::io::_print', 'std::io::_eprint',
+                                                                                              'std::io::Error::new', 'std::io::Error::other',
+                                                                                              'std::io::Error::from', 'std::io::stdout',
+                                                                                              'std::io::stderr')):
                 out.append((b, c))
     return out
 
